@@ -144,6 +144,13 @@ def gradcheck_cfg(cfg: Dict[str, Any], group_inputs: List[str]) -> bool:
 def check_op(rep: Report, cfg: Dict[str, Any], spec: Dict[str, Dict[str, Any]], rng: random.Random, do_gradcheck: bool) -> None:
     op = cfg["op"]
     names = sorted({k for (o, k) in spec if o == op and k != "__fixed__"})
+    # process history: the same configuration (hence the same scale values) goes through the library in a LOWER precision
+    # first; the float64 scales observed afterwards must not remember it
+    for con in ([None] + [n for n in names if n]) if names else [cfg.get("constraint")]:
+        try:
+            ops.probe(dict(cfg, dtype="bf16" if (op == "conv1d" or rng.random() < 0.5) else "f16", **({"constraint": con} if names else {})), 0)
+        except Exception:
+            pass
     base = scalars(dict(cfg, constraint=None)) if names else scalars(cfg)
     label = json.dumps(cfg, sort_keys=True)
     if base is None or "__err__" in base:
